@@ -162,6 +162,12 @@ THEOREM_CLASS_PROBLEMS = [
     ("a(i) = b(i) * c(i)", {"a": "s", "b": "s", "c": "s"}),
     # spadd (`spadd_kernel_correct`): sum of two sparse vectors (union merge: the whole lattice)
     ("a(i) = b(i) + c(i)", {"a": "s", "b": "s", "c": "s"}),
+    # sparse2 (`sparse2_kernel_correct`): two-level compressed copy / scale
+    ("a(i,j) = b(i,j)", {"a": "ss", "b": "ss"}),
+    ("a(i,j) = 2 * b(i,j)", {"a": "ss", "b": "ss"}),
+    # denseTerm (`denseTerm_kernel_correct`): matrix product, dot product
+    ("a(i,j) = b(i,k) * c(k,j)", {"a": "dd", "b": "dd", "c": "dd"}),
+    ("a() = b(i) * c(i)", {"a": "", "b": "d", "c": "d"}),
     # denseN (`denseN_kernel_correct`): dense element-wise kernels of every order
     ("a(i,j) = b(i,j) + c(i,j)", {"a": "dd", "b": "dd", "c": "dd"}),
     ("a(i,j,k) = b(i,j,k) * c(i,j,k) + 1", {"a": "ddd", "b": "ddd", "c": "ddd"}),
